@@ -190,6 +190,10 @@ func ParseRtmpUrl(rawUrl string) (ctx UrlContext, err error) {
 	//
 	if strings.Count(ctx.PathWithRawQuery, "?") > 1 {
 		index := strings.LastIndexByte(ctx.PathWithRawQuery, '/')
+		if index < 1 {
+			// 只有开头的'/'，没法再分出appName
+			return ctx, fmt.Errorf("%w. url=%s", ErrInvalidUrl, rawUrl)
+		}
 		ctx.Path = ctx.PathWithRawQuery
 		ctx.PathWithoutLastItem = ctx.PathWithRawQuery[1:index]
 		ctx.LastItemOfPath = ctx.PathWithRawQuery[index+1:]
